@@ -241,7 +241,10 @@ func writeCompoundOpInfix(w io.Writer, c Compound, opts *WriteOptions, env *Env,
 func writeCompoundFunctionalNotation(w io.Writer, c Compound, opts *WriteOptions, env *Env) error {
 	ew := errWriter{w: w}
 	opts = opts.withRight(operator{})
-	_ = c.Functor().WriteTerm(&ew, opts, env)
+	// A functor in front of its arguments is no operand: -(a,b,c) is a term, (-)(a,b,c) isn't.
+	asFunctor := *opts
+	asFunctor.ops = nil
+	_ = c.Functor().WriteTerm(&ew, &asFunctor, env)
 	_, _ = fmt.Fprint(&ew, "(")
 	opts = opts.withLeft(operator{}).withPriority(999)
 	opts.maxDepth--
